@@ -22,7 +22,7 @@ COMMON_ASSUMPTIONS = [
 
 register(
     "C14", "simlab.profiles.c14", "fault_enumeration",
-    budgets={"quick": dict(runs=320, timeout=600), "thorough": dict(runs=3200, timeout=600)},
+    budgets={"quick": dict(runs=320, timeout=600), "thorough": dict(runs=1600, timeout=900)},
     rule=("each run = one seeded job/state configuration (runs 0,1 mod 4: job runs; 2 mod 4: chain round-trip / spill sessions; 3 mod 4: tree round trips); for job runs EVERY file-system mutation of the whole job "
           "(open/create, each raw write incl. torn prefixes, rename, remove, mkdir) is a crash point whose on-disk "
           "snapshot is judged, then restarted jobs are run into sampled (thorough: all) snapshots and every crash "
@@ -47,11 +47,11 @@ _CHAIN_SEAMS = ["SimRNG (global numpy stream reseeded per step)", "SimGC (gc dis
                 "gauge schedule (canonicalise/ensure/move_qnidx/compress by 'another holder' between arithmetic steps)"]
 for _pid, _ref in (("C03", "4/C03"), ("C04", "4/C04"), ("C05", "4/C05"), ("C06", "4/C06"), ("C07", "4/C07"), ("C13", "4/C13")):
     register(_pid, f"simlab.profiles.{_pid.lower()}", "exploration",
-             budgets={"quick": dict(runs=1600, timeout=600), "thorough": dict(runs=20000, timeout=900)},
+             budgets={"quick": dict(runs=1600, timeout=600), "thorough": dict(runs=8000, timeout=900)},
              rule=_CHAIN_RULE + (" (C05/C06/C13 also run sessions of the tree world, see C11)" if _pid in ("C05", "C06", "C13") else ""), assumptions=COMMON_ASSUMPTIONS, seams=_CHAIN_SEAMS, design_ref=_ref)
 
 register("C15", "simlab.profiles.c15", "exploration",
-         budgets={"quick": dict(runs=1600, timeout=600), "thorough": dict(runs=60000, timeout=900)},
+         budgets={"quick": dict(runs=1600, timeout=600), "thorough": dict(runs=8000, timeout=900)},
          rule=("each run = one seeded expression program (10-45 steps) over a pool of Op/OpSum objects on a generated model; "
                "every result is compared with the matrix expression of the operand matrices and every pool member is re-evaluated "
                "after every step.  non-trivial = result with >= 2 factors/terms; distinct = distinct (operation, sub-kind, scalar type, "
@@ -60,7 +60,7 @@ register("C15", "simlab.profiles.c15", "exploration",
          seams=["program schedule with aliasing of handles"], design_ref="4/C15")
 
 register("C16", "simlab.profiles.c16", "exploration",
-         budgets={"quick": dict(runs=1200, timeout=600), "thorough": dict(runs=12000, timeout=900)},
+         budgets={"quick": dict(runs=1200, timeout=600), "thorough": dict(runs=6000, timeout=900)},
          rule=("each run = one seeded session over 2-5 SHARED basis instances: op_mat requests for supported symbols, requests for unsupported "
                "symbols (legal ValueError), use inside Model/Mpo, defining-relation checks, and model-builder checks against harness-assembled "
                "Hamiltonians.  non-trivial = basis with >= 2 states / builder with a checked Hamiltonian; distinct = distinct "
@@ -70,7 +70,7 @@ register("C16", "simlab.profiles.c16", "exploration",
          seams=["shared mutable BasisSet instances (per-instance _recursion_flag) under a schedule containing raising calls"], design_ref="4/C16")
 
 register("C18", "simlab.profiles.c18", "exploration",
-         budgets={"quick": dict(runs=1200, timeout=600), "thorough": dict(runs=40000, timeout=900)},
+         budgets={"quick": dict(runs=1200, timeout=600), "thorough": dict(runs=10000, timeout=900)},
          rule=("each run = 10-30 kernel invocations (expm_krylov / svd_qn / eigh_qn) on generated inputs with scheduled LAPACK failures and "
                "RNG positions.  non-trivial = dimension >= 2 (krylov) or >= 4 entries (svd); distinct = distinct (kernel, size, spectrum/label "
                "pattern, start vector kind, dt kind, block size, mode flags, fault armed, dtype) tuples"),
@@ -79,7 +79,7 @@ register("C18", "simlab.profiles.c18", "exploration",
          design_ref="4/C18")
 
 register("C01", "simlab.profiles.c01", "exploration",
-         budgets={"quick": dict(runs=1200, timeout=600, xclass=8), "thorough": dict(runs=30000, timeout=900, xclass=64)},
+         budgets={"quick": dict(runs=1200, timeout=600, xclass=8), "thorough": dict(runs=6000, timeout=900, xclass=32)},
          rule=_CHAIN_RULE + "; for C01 the sessions are dominated by Mpo construction (three algorithms, offsets) on generated models/term lists and by "
               "sequences of adjacent-site swaps carried by one operator object, interleaved with copies",
          assumptions=COMMON_ASSUMPTIONS + ["the input dimension (models, term lists) is sampled with the strength of seeded random testing; the simulation adds swap histories, "
@@ -96,12 +96,12 @@ _EVO_ASSUME = COMMON_ASSUMPTIONS + [
     "accuracy bounds are asserted only when the bond limit (and, for one-site TDVP schemes, the input bonds) reach the exact ranks and x=||H|||dt| is in [0.02,0.5]; bounds and their measured/allowed maxima are listed in the evidence",
 ]
 _EVO_SEAMS = _CHAIN_SEAMS + ["SimClock (time-dependent Hamiltonian callback records sample times)", "config history (guess_dt / auto-switched method carried by objects and copies)"]
-register("C09", "simlab.profiles.c09", "exploration", budgets={"quick": dict(runs=3200, timeout=600), "thorough": dict(runs=60000, timeout=600)},
+register("C09", "simlab.profiles.c09", "exploration", budgets={"quick": dict(runs=3200, timeout=600), "thorough": dict(runs=16000, timeout=900)},
          rule=_EVO_RULE, assumptions=_EVO_ASSUME, seams=_EVO_SEAMS, design_ref="4/C09")
-register("C10", "simlab.profiles.c10", "exploration", budgets={"quick": dict(runs=3200, timeout=600), "thorough": dict(runs=60000, timeout=600)},
+register("C10", "simlab.profiles.c10", "exploration", budgets={"quick": dict(runs=3200, timeout=600), "thorough": dict(runs=16000, timeout=900)},
          rule=_EVO_RULE, assumptions=_EVO_ASSUME, seams=_EVO_SEAMS, design_ref="4/C10")
 
-register("C08", "simlab.profiles.c08", "exploration", budgets={"quick": dict(runs=2400, timeout=900), "thorough": dict(runs=40000, timeout=900)},
+register("C08", "simlab.profiles.c08", "exploration", budgets={"quick": dict(runs=2400, timeout=900), "thorough": dict(runs=10000, timeout=900)},
          rule=("each run = one seeded session on a generated model: guesses (random/product, any gauge), Hamiltonians with offsets, optimize_mps calls with generated "
                "sweep schedules, 1-/2-site, direct/Davidson (cut-off knob forces the iterative branch), 1-4 roots, omega targeting, stacked operators, Davidson stopped "
                "after 1-5 cycles, LAPACK failures in the blocked SVD; every reported value of every sweep is compared with sector-restricted exact diagonalisation. "
@@ -109,7 +109,7 @@ register("C08", "simlab.profiles.c08", "exploration", budgets={"quick": dict(run
          assumptions=COMMON_ASSUMPTIONS + ["numpy eigh of the sector block is the exact reference", "equality at full bond dimension is asserted only for converged fault-free schedules with tolerance 20*max(e_rtol|E|, e_atol)"],
          seams=_CHAIN_SEAMS + ["SimSolver (davidson as seen from mps.gs: max_cycle / max_memory)", "direct-vs-iterative cut-off knob (np.prod proxy in mps.gs)", "SimLAPACK"], design_ref="4/C08")
 
-register("C17", "simlab.profiles.c17", "exploration", budgets={"quick": dict(runs=2400, timeout=600), "thorough": dict(runs=40000, timeout=600)},
+register("C17", "simlab.profiles.c17", "exploration", budgets={"quick": dict(runs=2400, timeout=600), "thorough": dict(runs=10000, timeout=900)},
          rule=("each run = one seeded session: random symmetric integrals -> qc_model/Mpo vs a harness-assembled fermionic matrix; optimize_mps and two-site TDVP with on-the-fly "
                "swapping driven by the natural criteria or by scheduler-forced decisions (SimSwap), direct try_swap_site sequences; after each the re-ordered operator equals the "
                "original in the new order (fermionic sign map for Jordan-Wigner models), the spectrum/variational bound is unchanged and the state permuted back is consistent. "
@@ -124,6 +124,6 @@ _TREE_RULE = ("each run = one seeded session over a population of TTNS/TTNO obje
               "distinct = distinct (operation, sub-kind, object kind, tree shape, bond dimensions, dtype) tuples")
 for _pid in ("C02", "C11", "C12"):
     register(_pid, f"simlab.profiles.{_pid.lower()}", "exploration",
-             budgets={"quick": dict(runs=1600 if _pid == "C12" else 2400, timeout=600), "thorough": dict(runs=40000, timeout=600)},
+             budgets={"quick": dict(runs=1600 if _pid == "C12" else 2400, timeout=600), "thorough": dict(runs=10000, timeout=900)},
              rule=_TREE_RULE, assumptions=COMMON_ASSUMPTIONS, seams=_CHAIN_SEAMS + (["ODE budget seam (tn.time_evolution.solve_ivp)"] if _pid == "C12" else []),
              design_ref="4/" + _pid)
